@@ -1232,7 +1232,7 @@ maxterms, or set zeroprec."""
         try:
             v = ctx.one
             for p in factors:
-                v *= p
+                v *= ctx.convert(p)
         finally:
             ctx.prec = orig
         return +v
